@@ -330,3 +330,359 @@ Example record_converse_mx :
     Forall (fun fk : pfield => vget (rr_data r) (fst fk) <> None) (tl_pack L) /\
     pack_rr r 400 false (st0 [7; 7; 7]) = Ok (st0 (takeN 30 ex_mx_wire)).
 Proof. exact mx_converse_hypotheses_hold. Qed.
+
+(* ================================================================== *)
+(* wire -> value -> wire completed (Proofs/RoundtripConverseProofs.v): what the
+   decoders return is canonical, hence unpack (pack (unpack w)) = unpack w; and
+   the converse for every field kind and all 81 record types, each kind under
+   the canonicity condition of its wire form, with refuting octets wherever an
+   accepted wire form is not written back identically. *)
+From Dns Require Import Proofs.RoundtripConverseProofs.
+
+(* ---- 1. canonicity of decoder output ----
+   [value_ok k x]      the two conditions that are needed on a decoded value:
+                       k = K_apl: every address has no bits beyond its prefix
+                       ([apl_masked]: mask_bytes ip prefix = ip);
+                       k = K_svcb: every alpn value reports the length of its
+                       packed form ([alpn_len_ok]; false exactly when the wire
+                       value holds an empty id); True for every other kind.
+   [present ps v]      every struct field the layout ps assigns is present in v
+                       (unpack() ran through all its statements).
+   [values_ok v ps]    [value_ok] for every field of the layout. *)
+
+(* one statement: whatever unpack_field returns for kind k' is canonical for the
+   agreeing pack kind k, wherever the values are stored (v), provided a sized
+   field / the gateway sees the same size / type field as the decoder did *)
+Theorem decoded_field_is_canonical :
+  forall (got : rdata) (k k' : fkind) (msg : bytes) (off : N) (vals : list fval) (off' : N),
+    wfb msg -> off <= lenN msg -> kind_agree k k' = true ->
+    unpack_field got k' msg off = Ok (vals, off') ->
+    Forall (value_ok k) vals ->
+    forall (v : rdata) (f : string),
+      Forall2 (fun g y => vget v g = Some y) (knames f k) vals ->
+      names_distinct (knames f k) = true ->
+      (forall s, depends_on k = Some s -> vget_n v s = vget_n got s) ->
+      field_canon v f k.
+Proof. exact unpack_field_canon. Qed.
+Print Assumptions decoded_field_is_canonical.
+
+(* the two conditions of [value_ok] cannot be dropped: these octets are
+   accepted, and what is packed from the decoded value decodes to another value *)
+Theorem apl_decoded_value_not_canonical_refuted :
+  decoded K_apl [0; 1; 8; 4; 10; 1; 1; 1] = Some [V_apl [(false, 8, [10; 1; 1; 1])]] /\
+  repack K_apl [0; 1; 8; 4; 10; 1; 1; 1] = Some [0; 1; 8; 1; 10] /\
+  reunpack K_apl [0; 1; 8; 4; 10; 1; 1; 1] = Some [V_apl [(false, 8, [10; 0; 0; 0])]] /\
+  ~ apl_masked (false, 8, [10; 1; 1; 1]).
+Proof. exact apl_bits_beyond_prefix_refuted. Qed.
+Print Assumptions apl_decoded_value_not_canonical_refuted.
+
+Theorem svcb_decoded_value_not_canonical_refuted :
+  repack K_svcb [0; 0; 0; 4; 0; 4; 0; 1] = Some [0; 0; 0; 4; 0; 1; 0; 4] /\
+  decoded K_svcb [0; 1; 0; 1; 0] = Some [V_pairs [(1, [], 1)]] /\
+  repack K_svcb [0; 1; 0; 1; 0] = Some [0; 1; 0; 0] /\
+  reunpack K_svcb [0; 1; 0; 1; 0] = Some [V_pairs [(1, [], 0)]] /\
+  ~ alpn_len_ok (1, [], 1).
+Proof. exact svcb_normalised_refuted. Qed.
+Print Assumptions svcb_decoded_value_not_canonical_refuted.
+
+(* the views of EDNS0 options and SVCB parameters are idempotent: the packed
+   value of a decoded option is what its codec returns for that value again *)
+Theorem option_view_idempotent :
+  forall (code : N) (data b : bytes) (l : N),
+    wfb data -> opt_view code data = Some (b, l) ->
+    opt_view code b = Some (b, l) /\ (lenN b <= lenN data \/ lenN b <= 255).
+Proof. exact opt_view_idem. Qed.
+Print Assumptions option_view_idempotent.
+
+Theorem svcb_view_idempotent :
+  forall (key : N) (data b : bytes) (l : N),
+    wfb data -> svcb_view key data = Some (b, l) -> alpn_len_ok (key, b, l) ->
+    svcb_view key b = Some (b, l) /\ lenN b <= lenN data.
+Proof. exact svcb_view_idem. Qed.
+Print Assumptions svcb_view_idempotent.
+
+(* a generated unpack(), any layout meeting [layout_ok] (all 81 do) *)
+Theorem decoded_field_sequence_is_canonical :
+  forall (ps : list pfield) (us : list ufield) (msg : bytes) (off : N) (gotF : rdata) (off' : N),
+    wfb msg -> sides_agree ps us = true -> layout_ok [] ps = true -> off <= lenN msg ->
+    unpack_fields us [] msg off = Ok (gotF, off') ->
+    present ps gotF -> values_ok gotF ps -> fields_canon gotF ps.
+Proof. exact unpack_fields_canon_top. Qed.
+Print Assumptions decoded_field_sequence_is_canonical.
+
+(* UnpackRR: the record meets the hypotheses of [record_roundtrip] *)
+Theorem decoded_record_is_canonical :
+  forall (msg : bytes) (off : N) (r : rr) (off' : N) (L : tlayout),
+    wfb msg -> unpack_rr msg off = Ok (r, off') ->
+    find_layout layouts (rr_kind r) = Some L -> rr_rdlength r <> 0 ->
+    present (tl_pack L) (rr_data r) -> values_ok (rr_data r) (tl_pack L) ->
+    exists ls, rr_ok r ls /\ fields_canon (rr_data r) (tl_pack L).
+Proof. exact unpack_rr_canon. Qed.
+Print Assumptions decoded_record_is_canonical.
+
+(* unpack (pack (unpack w)) = unpack w.  Full clause: for every accepted w.
+   Proved (partial): when unpack() ran through all statements ([present]; see
+   [record_repack_not_identical_refuted] for a truncated SOA), under [values_ok]
+   (refuted otherwise, above), and when pack() accepts the decoded value (shown
+   for canonical wire forms by the converse below; not shown in general). *)
+Theorem field_sequence_reunpack_partial :
+  forall (ps : list pfield) (us : list ufield) (msg : bytes) (off : N) (gotF : rdata) (off' cap : N)
+         (pre out : bytes) (st' : pn_state),
+    wfb msg -> sides_agree ps us = true -> layout_ok [] ps = true -> off <= lenN msg ->
+    unpack_fields us [] msg off = Ok (gotF, off') ->
+    present ps gotF -> values_ok gotF ps ->
+    pack_fields gotF ps cap (st0 out) = Ok st' ->
+    exists (b : bytes) (got' : rdata), st' = st0 (out ++ b) /\
+      unpack_fields us [] (pre ++ b) (lenN pre) = Ok (got', lenN pre + lenN b) /\
+      all_same ps got' gotF.
+Proof. exact fields_reunpack. Qed.
+Print Assumptions field_sequence_reunpack_partial.
+
+Theorem record_reunpack_partial :
+  forall (msg : bytes) (off : N) (r : rr) (off' : N) (L : tlayout) (cap : N) (out : bytes) (st' : pn_state)
+         (post : bytes),
+    wfb msg -> unpack_rr msg off = Ok (r, off') ->
+    find_layout layouts (rr_kind r) = Some L -> rr_rdlength r <> 0 ->
+    present (tl_pack L) (rr_data r) -> values_ok (rr_data r) (tl_pack L) ->
+    lenN out < cap -> pack_rr r cap false (st0 out) = Ok st' ->
+    exists (ls : list label) (rd : bytes) (r' : rr),
+      rr_ok r ls /\ st' = st0 (out ++ rr_wire ls r rd) /\
+      unpack_rr (out ++ rr_wire ls r rd ++ post) (lenN out) = Ok (r', lenN out + lenN (rr_wire ls r rd)) /\
+      rr_rdlength r' = lenN rd /\ rr_same L r' r.
+Proof. exact rr_reunpack. Qed.
+Print Assumptions record_reunpack_partial.
+
+(* ---- 2. the converse, kind by kind: the canonicity condition of the wire form ----
+   Each theorem: octets the decoder accepts at off, ending at off', under the
+   stated condition, are written back by the packer as exactly msg[off:off']. *)
+
+(* type bitmaps.  [nsec_plain fuel msg off]: following the blocks from off, the
+   last data octet of every block is not zero.  (Increasing windows and lengths
+   1..32 are enforced by the decoder itself.) *)
+Theorem nsec_converse_canonical_blocks :
+  forall (msg : bytes) (off : N) (l : list N) (off' cap : N) (out : bytes),
+    wfb msg -> off <= lenN msg -> lenN msg + 320 <= cap -> lenN out = off ->
+    unpack_nsec msg off = Ok (l, off') -> nsec_plain (S (length msg)) msg off ->
+    off <= off' <= lenN msg /\
+    pack_nsec l cap (st0 out) = Ok (st0 (out ++ take_at msg off (off' - off))).
+Proof. exact nsec_converse. Qed.
+Print Assumptions nsec_converse_canonical_blocks.
+
+Theorem nsec_trailing_zero_octet_refuted :
+  decoded K_nsec [0; 2; 64; 0] = Some [V_ns [1]] /\ repack K_nsec [0; 2; 64; 0] = Some [0; 1; 64] /\
+  ~ nsec_plain 5 [0; 2; 64; 0] 0 /\
+  decoded K_nsec [0; 1; 0] = Some [V_ns []] /\ repack K_nsec [0; 1; 0] = Some [].
+Proof. exact nsec_trailing_zero_refuted. Qed.
+Print Assumptions nsec_trailing_zero_octet_refuted.
+
+(* lists of names.  [names_plain msg off]: every name the loop reads is written
+   out in full ([name_plain]: the octets are wire_name ls of a valid ls; no
+   compression pointer) *)
+Theorem names_converse_uncompressed :
+  forall (msg : bytes) (off : N) (l : list bytes) (off' cap : N) (c : bool) (out : bytes),
+    wfb msg -> off <= lenN msg -> lenN msg + 320 <= cap -> lenN out = off ->
+    unpack_names msg off = Ok (l, off') -> names_plain msg off ->
+    off <= off' <= lenN msg /\
+    pack_names l cap c (st0 out) = Ok (st0 (out ++ take_at msg off (off' - off))).
+Proof. exact names_converse. Qed.
+Print Assumptions names_converse_uncompressed.
+
+Theorem names_compression_pointer_refuted :
+  decoded (K_names false) [1; 97; 0; 192; 0] = Some [V_ss [[97; 46]; [97; 46]]] /\
+  repack (K_names false) [1; 97; 0; 192; 0] = Some [1; 97; 0; 1; 97; 0].
+Proof. exact names_pointer_refuted. Qed.
+Print Assumptions names_compression_pointer_refuted.
+
+(* APL.  The decoder rejects a trailing zero address octet; what remains to be
+   asked is that the address has no bits beyond the prefix length *)
+Theorem apl_converse_masked :
+  forall (msg : bytes) (off : N) (l : list (bool * N * bytes)) (off' cap : N) (out : bytes),
+    wfb msg -> off <= lenN msg -> lenN msg <= cap -> lenN out = off ->
+    unpack_apl msg off = Ok (l, off') -> Forall apl_masked l ->
+    off <= off' <= lenN msg /\
+    pack_apl l cap (st0 out) = Ok (st0 (out ++ take_at msg off (off' - off))).
+Proof. exact apl_converse. Qed.
+Print Assumptions apl_converse_masked.
+
+(* EDNS0 options / SVCB parameters.  [opts_plain] / [svcb_plain]: for every
+   (code, length, value) triple read from off, the option's view returns the
+   octets it was given ([view_id]) *)
+Theorem options_converse_fixed_values :
+  forall (msg : bytes) (off : N) (l : list (N * bytes * N)) (off' cap : N) (out : bytes),
+    wfb msg -> off <= lenN msg -> lenN msg <= cap -> lenN out = off ->
+    unpack_opts msg off = Ok (l, off') -> opts_plain (S (length msg)) msg off ->
+    off <= off' <= lenN msg /\
+    pack_opts l cap (st0 out) = Ok (st0 (out ++ take_at msg off (off' - off))).
+Proof. exact opts_converse. Qed.
+Print Assumptions options_converse_fixed_values.
+
+Theorem svcb_converse_fixed_values :
+  forall (msg : bytes) (off : N) (l : list (N * bytes * N)) (off' cap : N) (out : bytes),
+    wfb msg -> off <= lenN msg -> lenN msg <= cap -> lenN out = off ->
+    unpack_svcb msg off = Ok (l, off') -> svcb_plain (S (length msg)) msg off ->
+    off <= off' <= lenN msg /\
+    pack_svcb l cap (st0 out) = Ok (st0 (out ++ take_at msg off (off' - off))).
+Proof. exact svcb_converse. Qed.
+Print Assumptions svcb_converse_fixed_values.
+
+(* for which codes the view is the identity on everything it accepts: every
+   EDNS0 code except LLQ(1), UL(2), SUBNET(8), EXPIRE(9), TCP-KEEPALIVE(11),
+   REPORTING(18); every SVCB key except mandatory(0) and alpn(1) *)
+Theorem option_codes_kept_as_read :
+  forall (code : N) (data b : bytes) (l : N),
+    opt_view code data = Some (b, l) -> ~ In code [1; 2; 8; 9; 11; 18] -> b = data.
+Proof. exact opt_view_transparent. Qed.
+Print Assumptions option_codes_kept_as_read.
+
+Theorem svcb_keys_kept_as_read :
+  forall (key : N) (data b : bytes) (l : N),
+    svcb_view key data = Some (b, l) -> key <> 0 -> key <> 1 -> b = data.
+Proof. exact svcb_view_transparent. Qed.
+Print Assumptions svcb_keys_kept_as_read.
+
+(* ... and exactly when the others are (SUBNET and REPORTING: when the value is
+   a fixed point of the view, i.e. [view_id] itself) *)
+Theorem option_codes_kept_iff :
+  forall (code : N) (data b : bytes) (l : N),
+    opt_view code data = Some (b, l) -> code <> 8 -> code <> 18 ->
+    (b = data <->
+     (code = 1 -> lenN data = 18) /\
+     (code = 2 -> lenN data = 4 \/ Options.all_zero (skipn 4 data) = false) /\
+     (code = 9 -> lenN data = 0 \/ lenN data = 4) /\
+     (code = 11 -> lenN data = 0 \/ Options.all_zero data = false)).
+Proof. exact opt_view_id_iff. Qed.
+Print Assumptions option_codes_kept_iff.
+
+Theorem svcb_keys_kept_iff :
+  forall (key : N) (data b : bytes) (l : N),
+    wfb data -> svcb_view key data = Some (b, l) ->
+    (b = data <->
+     (key = 0 -> sort_n (pairs16 data) = pairs16 data) /\
+     (key = 1 -> alpn_scan (S (length data)) data = Some false)).
+Proof. exact svcb_view_id_iff. Qed.
+Print Assumptions svcb_keys_kept_iff.
+
+(* the values the option codecs normalise, octets in / octets out: LLQ longer
+   than 18 octets, UL with a zero key lease, SUBNET family 0 with trailing
+   octets, SUBNET with address bits beyond the source prefix, EXPIRE longer than
+   4 octets, TCP-KEEPALIVE with timeout 0, REPORTING followed by more octets,
+   REPORTING with a compression pointer inside the option *)
+Theorem options_normalised_refuted :
+  map (repack K_opt)
+    [ [0; 1; 0; 19; 7; 7; 7; 7; 7; 7; 7; 7; 7; 7; 7; 7; 7; 7; 7; 7; 7; 7; 7];
+      [0; 2; 0; 8; 0; 0; 0; 5; 0; 0; 0; 0];
+      [0; 8; 0; 5; 0; 0; 0; 0; 9];
+      [0; 8; 0; 8; 0; 1; 8; 0; 10; 1; 1; 1];
+      [0; 9; 0; 5; 1; 2; 3; 4; 5];
+      [0; 11; 0; 2; 0; 0];
+      [0; 18; 0; 5; 1; 97; 0; 9; 9];
+      [0; 18; 0; 7; 1; 97; 192; 4; 1; 98; 0] ] =
+    [ Some [0; 1; 0; 18; 7; 7; 7; 7; 7; 7; 7; 7; 7; 7; 7; 7; 7; 7; 7; 7; 7; 7];
+      Some [0; 2; 0; 4; 0; 0; 0; 5];
+      Some [0; 8; 0; 4; 0; 0; 0; 0];
+      Some [0; 8; 0; 5; 0; 1; 8; 0; 10];
+      Some [0; 9; 0; 4; 1; 2; 3; 4];
+      Some [0; 11; 0; 0];
+      Some [0; 18; 0; 3; 1; 97; 0];
+      Some [0; 18; 0; 5; 1; 97; 1; 98; 0] ].
+Proof. exact opt_normalised_refuted. Qed.
+Print Assumptions options_normalised_refuted.
+
+(* an octet string (CAA value) whose text exceeds packStringOctet's 1025 octets
+   is decoded but cannot be packed again ([plain_at K_octet]) *)
+Theorem octet_string_too_long_refuted :
+  decoded K_octet (repeat 92 520) <> None /\ repack K_octet (repeat 92 520) = None.
+Proof. exact octet_too_long_refuted. Qed.
+Print Assumptions octet_string_too_long_refuted.
+
+(* ---- 3. every kind, every layout, every record type ----
+   [plain2 got k msg off off' vals]  the condition above for kind k: names (also
+   in lists and as the gateway host) in full; octet-string text within the
+   limit; [nsec_plain]; APL addresses masked; [opts_plain]; [svcb_plain]; no
+   condition for integers, addresses, character-strings and opaque octets.
+   [plain_fields2]  [plain2] for every statement, following the decoder. *)
+Theorem field_converse :
+  forall (got : rdata) (k k' : fkind) (msg : bytes) (off : N) (vals : list fval) (off' cap : N),
+    wfb msg -> kind_agree k k' = true -> off <= lenN msg ->
+    unpack_field got k' msg off = Ok (vals, off') -> plain2 got k msg off off' vals ->
+    lenN msg + 320 <= cap ->
+    off <= off' <= lenN msg /\
+    forall (v : rdata) (f : string) (out : bytes),
+      Forall2 (fun g y => vget v g = Some y) (knames f k) vals ->
+      (forall s, depends_on k = Some s -> vget_n v s = vget_n got s) -> lenN out = off ->
+      pack_field v f k cap (st0 out) = Ok (st0 (out ++ take_at msg off (off' - off))).
+Proof. exact field_converse_all. Qed.
+Print Assumptions field_converse.
+
+Theorem field_sequence_converse :
+  forall (cap : N) (ps : list pfield) (us : list ufield) (msg : bytes) (off : N) (gotF : rdata)
+         (off' : N) (out : bytes),
+    wfb msg -> sides_agree ps us = true -> layout_ok [] ps = true -> off <= lenN msg ->
+    unpack_fields us [] msg off = Ok (gotF, off') ->
+    plain_fields2 ps us [] msg off -> present ps gotF ->
+    lenN msg + 320 <= cap -> lenN out = off ->
+    off <= off' <= lenN msg /\
+    pack_fields gotF ps cap (st0 out) = Ok (st0 (out ++ take_at msg off (off' - off))).
+Proof. exact fields_converse_all_top. Qed.
+Print Assumptions field_sequence_converse.
+
+(* a record of ANY type with a layout: no restriction on the field kinds any
+   more.  The owner name is written out in full, the RDATA is not empty, unpack()
+   ran through all statements, the RDATA octets are canonical ([plain_fields2]) *)
+Theorem record_converse :
+  forall (msg : bytes) (off : N) (r : rr) (off' : N) (L : tlayout) (ls : list label) (cap : N) (out : bytes),
+    wfb msg -> unpack_rr msg off = Ok (r, off') ->
+    find_layout layouts (rr_kind r) = Some L ->
+    rr_rdlength r <> 0 ->
+    valid_wire ls = true -> off + lenN (wire_name ls) <= lenN msg ->
+    take_at msg off (lenN (wire_name ls)) = wire_name ls ->
+    plain_fields2 (tl_pack L) (tl_unpack L) [] (takeN off' msg) (off + lenN (wire_name ls) + 10) ->
+    present (tl_pack L) (rr_data r) ->
+    lenN msg + 320 <= cap -> lenN out = off ->
+    off < off' <= lenN msg /\
+    pack_rr r cap false (st0 out) = Ok (st0 (out ++ take_at msg off (off' - off))).
+Proof. exact rr_converse_all. Qed.
+Print Assumptions record_converse.
+
+(* all 81 record types of the translated table are in its range *)
+Theorem converse_covers_all_types :
+  length layouts = 81%nat /\ forallb layout_supported layouts = true.
+Proof. split; [exact layouts_count|exact all_layouts_supported]. Qed.
+Print Assumptions converse_covers_all_types.
+
+(* the hypotheses rr_rdlength r <> 0 and [present] cannot be dropped, and an
+   NSEC record with a zero-ended block: UnpackRR at 0, packRR into an empty buffer *)
+Theorem record_repack_not_identical_refuted :
+  rr_repack [0; 0; 15; 0; 1; 0; 0; 0; 0; 0; 0] = Some [0; 0; 15; 0; 1; 0; 0; 0; 0; 0; 2; 0; 0] /\
+  rr_repack [0; 0; 6; 0; 1; 0; 0; 0; 0; 0; 2; 0; 0] =
+    Some [0; 0; 6; 0; 1; 0; 0; 0; 0; 0; 22; 0; 0; 0; 0; 0; 0; 0; 0; 0; 0; 0; 0; 0; 0; 0; 0; 0; 0; 0; 0; 0; 0] /\
+  rr_repack [0; 0; 47; 0; 1; 0; 0; 0; 0; 0; 5; 0; 0; 2; 64; 0] = Some [0; 0; 47; 0; 1; 0; 0; 0; 0; 0; 4; 0; 0; 1; 64].
+Proof. exact record_repack_refuted. Qed.
+Print Assumptions record_repack_not_identical_refuted.
+
+(* non-vacuity: an NSEC record (two bitmap windows) between other octets meets
+   every hypothesis of [record_converse], [decoded_record_is_canonical] and
+   [record_reunpack_partial], and packs to the octets it was read from *)
+Example record_converse_nsec :
+  exists r L,
+    wfb ex_nsec_wire /\ unpack_rr ex_nsec_wire 3 = Ok (r, 35) /\
+    find_layout layouts (rr_kind r) = Some L /\ rr_rdlength r <> 0 /\ valid_wire ex_owner = true /\
+    take_at ex_nsec_wire 3 (lenN (wire_name ex_owner)) = wire_name ex_owner /\
+    plain_fields2 (tl_pack L) (tl_unpack L) [] (takeN 35 ex_nsec_wire) (3 + lenN (wire_name ex_owner) + 10) /\
+    present (tl_pack L) (rr_data r) /\ values_ok (rr_data r) (tl_pack L) /\
+    pack_rr r 400 false (st0 [7; 7; 7]) = Ok (st0 (takeN 35 ex_nsec_wire)).
+Proof. exact nsec_converse_example. Qed.
+(* the same statement ([converse_example w n]) for an HTTPS record (mandatory,
+   alpn, port, ipv4hint), an OPT record (SUBNET, COOKIE, EDE, REPORTING), an APL
+   record (IPv4 and negated IPv6 prefix), an IPSECKEY with a host-name gateway,
+   a HIP record with two rendezvous servers *)
+Example record_converse_https : converse_example ex_https_wire 56.
+Proof. exact https_converse_example. Qed.
+Example record_converse_opt : converse_example ex_opt_wire 59.
+Proof. exact opt_converse_example. Qed.
+Example record_converse_apl : converse_example ex_apl_wire 40.
+Proof. exact apl_converse_example. Qed.
+Example record_converse_ipseckey : converse_example ex_ipseckey_wire 31.
+Proof. exact ipseckey_converse_example. Qed.
+Example record_converse_hip : converse_example ex_hip_wire 38.
+Proof. exact hip_converse_example. Qed.
